@@ -21,11 +21,11 @@ from exabgp.protocol.ip import IPv4
 
 def make() -> Neighbor:
     n = Neighbor()
-    n.router_id = RouterID('1.1.1.1')
-    n.local_address = IPv4.from_string('127.0.0.1')
-    n.peer_address = IPv4.from_string('127.0.0.2')
-    n.peer_as = ASN(65000)
-    n.local_as = ASN(65000)
+    n.session.router_id = RouterID('1.1.1.1')
+    n.session.local_address = IPv4.from_string('127.0.0.1')
+    n.session.peer_address = IPv4.from_string('127.0.0.2')
+    n.session.peer_as = ASN(65000)
+    n.session.local_as = ASN(65000)
     n.hold_time = HoldTime(180)
     n.add_family((AFI.ipv4, SAFI.unicast))
     n.add_family((AFI.ipv6, SAFI.unicast))
